@@ -50,6 +50,11 @@ func roleOf(v []byte) (string, int) {
 // attribute finds the exchange a store operation belongs to and the fault (if
 // any) scripted for it.
 func (c *RecConn) attribute() (x int, bg int, f string, g uint64) {
+	x, bg, f, _, g = c.attributeP()
+	return
+}
+
+func (c *RecConn) attributeP() (x int, bg int, f string, pos int, g uint64) {
 	w := c.w
 	g = gid()
 	w.mu.Lock()
@@ -66,15 +71,15 @@ func (c *RecConn) attribute() (x int, bg int, f string, g uint64) {
 		}
 	}
 	if e == nil {
-		return 0, 0, "", g
+		return 0, 0, "", 0, g
 	}
 	e.nops++
 	for _, ft := range e.faults {
 		if ft.N == e.nops {
-			f = ft.Kind
+			f, pos = ft.Kind, ft.Pos
 		}
 	}
-	return e.x, bg, f, g
+	return e.x, bg, f, pos, g
 }
 
 func (c *RecConn) stats() (int, int) {
@@ -90,7 +95,7 @@ func (c *RecConn) stats() (int, int) {
 }
 
 func (c *RecConn) Get(key string) ([]byte, error) {
-	x, bg, f, g := c.attribute()
+	x, bg, f, pos, g := c.attributeP()
 	if c.w.gate != nil {
 		c.w.gate.wait(g, "get")
 	}
@@ -118,6 +123,16 @@ func (c *RecConn) Get(key string) ([]byte, error) {
 			if len(v) > 0 {
 				v[len(v)/3] ^= 0x55
 			}
+		case "flipat":
+			if pos < len(v) {
+				v[pos] ^= 0x20
+			}
+		case "truncat":
+			if pos < len(v) {
+				v = v[:pos]
+			}
+		case "extend":
+			v = append(v, []byte("\r\nX-Extra: 1\r\n\r\ntrailing garbage")...)
 		case "nullobj":
 			v = []byte("null")
 		case "idxgarbage":
